@@ -6,7 +6,8 @@
    well-formedness), every rank, every numberer, EVERY processing order `order` of the incoming messages (any list of
    sources, hence fixed order, every arrival order and every message schedule), no bound on sizes. *)
 From Coq Require Import List NArith Bool Sorted.
-From DuneV Require Import C13_Model C13_Spec C13_Proofs C13_Proofs_Recv C13_Proofs_Sync C13_Proofs_Repair C13_Proofs_Completion C13_Proofs_Sound C13_Proofs_Iset C13_Proofs_Restore C13_Proofs_Witness C13_Proofs_Examples.
+From DuneV Require Import C13_Model C13_Spec C13_Proofs C13_Proofs_Recv C13_Proofs_Sync C13_Proofs_Repair C13_Proofs_Completion C13_Proofs_Sound C13_Proofs_Iset C13_Proofs_Restore C13_Proofs_Char C13_Proofs_Order C13_Proofs_RestoreFull
+  C13_Proofs_Witness C13_Proofs_Examples C13_Proofs_Examples2.
 Import ListNotations.
 Local Open Scope N_scope.
 
@@ -103,22 +104,44 @@ Theorem C13_no_junk : forall v numb w r order iset' ri' ptrs,
 Proof. exact P_rank_no_junk. Qed.
 Print Assumptions C13_no_junk.
 
-(* C13_restore -- FULL STATEMENT (not proved):
-     let W be the world rebuild produces for a decomposition with one copy per (rank, global); delete at each rank a set
-     of non-owner copies with their remote entries to get W'; if every deleted copy is still listed by another rank then
-     for every sigma   c13_sync c13_fixed numb W' sigma = W   up to the local numbers of the re-added pairs.
-   PROVED below (C13_restore_partial), for every rank q, every neighbour p that still lists a copy e of q, every order in
-   which q handles p's message: the copy is back exactly once (strict order of the set) with the recorded attribute,
-   public, numbered by the numberer; its remote entries for p and for every other holder p knows are back; no old pair or
-   entry is lost or altered; every entry present afterwards is an old one or a published fact; lists stay well formed.
-   MISSING for the full statement: (a) that every published fact is an entry of W (needs the description of W as the
-   pairwise intersection of the public copies, i.e. C04's theorem, not available to this slice) and (b) the assembly
-   "same members + strictly ordered => equal lists".  The full statement is evaluated by the oracle on every generated
-   case (c13_restore_pre / c13_restore_b on the impl's dump; see C13_fixed_restores_third_party for an instance).
-   C13_order_independent -- FULL STATEMENT (not proved): for permutations o1 o2 of the old neighbours,
-     c13_sync_rank c13_fixed numb w r o1 = c13_sync_rank c13_fixed numb w r o2.
-   All theorems of this file hold for EVERY order, so every stated post-condition is order independent; equality of the
-   two states needs the same assembly (b).  The driver evaluates it on every generated case (field oi). *)
+(* C13_order_independent: the state after sync does not depend on the order in which the incoming messages are
+   processed (useFixedOrder or any arrival order / message schedule): for any two orders with the same members the whole
+   result -- index set, remote lists, repaired pointers -- is EQUAL.
+   agree_entries att r m: local / remote attributes of all entries of m are those of the attribute function att (one
+   copy per (rank, global)); senders_ok: every processed sender satisfies sender_ok and agrees with att. *)
+Theorem C13_order_independent : forall numb w r att,
+  proc_ok (c13_proc_of w r) -> istrict (c13_iset (c13_proc_of w r)) ->
+  (forall q, sglob (c13_iset (c13_proc_of w q))) ->
+  agree_entries att r (c13_ri (c13_proc_of w r)) ->
+  forall o1 o2, (forall q, In q o1 <-> In q o2) -> senders_ok w att o1 ->
+  c13_sync_rank c13_fixed numb w r o1 = c13_sync_rank c13_fixed numb w r o2.
+Proof. exact P_order_independent. Qed.
+Print Assumptions C13_order_independent.
+
+(* C13_restore (full).  consistent W: W is what rebuild produces for a decomposition with one copy per (rank, global) --
+   every rank's set strictly ordered by global index, neighbour map strictly ordered, a list under q exactly when
+   non-empty, and  ((g, la), ra) in W[p].ri[q]  <->  p <> q /\ p holds a public copy (g, la) /\ q holds a public copy
+   (g, ra)   (the pairwise intersection of C04_spec / eqs. ri_s_set of the documentation).
+   deleted W W' D: every rank p dropped the copies with D p g = true together with ALL their remote entries (lists are
+   kept even when empty, as RemoteIndexListModifier leaves them).  D is arbitrary: the theorem does not even need the
+   deleted copies to be non-owner copies; what it needs is still_listed: every deleted copy is still listed by some
+   other rank.  Then for every rank p, every numberer and EVERY processing order of p's old neighbours, sync returns
+   exactly W[p]'s remote lists and W[p]'s index set in which only the re-added pairs are renumbered by the numberer
+   (renum) -- i.e. W itself when the numberer returns the old numbers -- and every pointer is repaired. *)
+Theorem C13_restore : forall W W' D numb p order,
+  consistent W -> deleted W W' D -> still_listed W W' D ->
+  (forall s, In s order <-> In s (map fst (c13_ri (c13_proc_of W p)))) ->
+  exists ptrs,
+    c13_sync_rank c13_fixed numb W' p order =
+      C13Ok (map (renum numb (D p)) (c13_iset (c13_proc_of W p))) (c13_ri (c13_proc_of W p)) ptrs /\
+    forall q l, In (q, l) (c13_ri (c13_proc_of W p)) ->
+      exists ps, In (q, C13Ptrs ps) ptrs /\
+        Forall2 (fun e k => ptr_to (map (renum numb (D p)) (c13_iset (c13_proc_of W p))) (fst e) k) l ps.
+Proof. exact P_restore. Qed.
+Print Assumptions C13_restore.
+
+(* (kept from the first round) the local form of restore for one neighbour p that still lists one copy of q, under
+   the weaker per-rank hypotheses; subsumed by C13_restore for consistent worlds *)
 Theorem C13_restore_partial : forall numb w p q order iset' ri' ptrs l e,
   sender_ok (c13_proc_of w p) -> proc_ok (c13_proc_of w q) ->
   istrict (c13_iset (c13_proc_of w q)) -> (forall s, sglob (c13_iset (c13_proc_of w s))) ->
@@ -173,3 +196,10 @@ Proof. exact W_fixed_w4_restores. Qed.
 Example C13_hypotheses_satisfiable :
   sender_ok (c13_proc_of c13_w4 0) /\ proc_ok (c13_proc_of c13_w4 2) /\ proc_ok (c13_proc_of c13_w4 1).
 Proof. exact W_hyps_satisfiable. Qed.
+
+(* the hypotheses of C13_restore (and of C13_order_independent) hold of a concrete world: global 5 owner on rank 0, overlap
+   on rank 1; rank 1 deletes its copy with its remote entry; rank 0 still lists it; and the conclusion computed *)
+Example C13_restore_hypotheses_satisfiable :
+  consistent c13_x2 /\ deleted c13_x2 c13_x2' c13_d2 /\ still_listed c13_x2 c13_x2' c13_d2 /\
+  c13_sync_rank c13_fixed (fun g => 100 + g) c13_x2' 1 [0] = C13Ok [C13Pair 5 2 105 true] [(0, [((5, 2), 1)])] [(0, C13Ptrs [0%nat])].
+Proof. exact (conj x2_consistent (conj x2_deleted (conj x2_still_listed x2_restored))). Qed.
